@@ -265,6 +265,9 @@ theorem C13_fact_min_len : Facts.time_min_len = some 19 := by decide
 theorem C13_fact_frac_digits : Facts.time_frac_digits = some 9 := by decide
 /-- `Transform` counts every unparsable value (no silent early return) -/
 theorem C13_fact_error_counted : Facts.time_error_counted = some true := by decide
+/-- the zone cache owns its keys (repaired: a key that was a substring of the record's pooled buffer was overwritten by
+later records; `Time.transform` has no state between values, and the correspondence runs sequences through one reused buffer) -/
+theorem C13_fact_zone_cache_keys : Facts.time_zone_cache_keys = ["strings.Clone(tzStr)"] := by decide
 
 /-! ### non-vacuity -/
 
